@@ -105,7 +105,9 @@ def sync_work():
     """With VERIF_WORK set, mirror /verif/coq (sources and compiled files) into the work tree."""
     if _WORK:
         COQ.parent.mkdir(parents=True, exist_ok=True)
-        subprocess.run(['rsync', '-a', '--exclude', '.lock', str(VERIF / 'coq') + '/', str(COQ) + '/'], check=True)
+        r = subprocess.run(['rsync', '-a', '--exclude', '.lock', str(VERIF / 'coq') + '/', str(COQ) + '/'])
+        if r.returncode not in (0, 24):   # 24 = a source file vanished while copying (concurrent build)
+            raise BrokenTie('sync_work', f'rsync exit {r.returncode}')
 
 
 def write_if_changed(path: Path, text: str) -> bool:
@@ -280,12 +282,40 @@ FORBIDDEN = re.compile(r'\b(Admitted|admit|Axiom|Axioms|Parameter|Parameters|Con
                        r'type-in-type|impredicative-set|native_compute)\b')
 
 
-def lint_sources(dirs: Sequence[Path]) -> list[str]:
-    """No Admitted/Axiom/... anywhere in the development (comments are stripped first);
-    Variable/Hypothesis only inside sections."""
+def dep_closure(prop: str) -> list[Path]:
+    """The .v files theories/<prop>/Props.v transitively Requires (Slsk.* and SlskGen.* only)."""
+    seen: dict[Path, None] = {}
+    todo = [COQ / 'theories' / prop / 'Props.v']
+    while todo:
+        f = todo.pop()
+        if f in seen or not f.exists():
+            continue
+        seen[f] = None
+        txt = _strip_comments(f.read_text())
+        for m in re.finditer(r'(?:From\s+(\S+)\s+)?Require\s+(?:Import\s+|Export\s+)?(.*?)\.(?=\s|$)', txt, re.S):
+            frm, names = m.group(1), m.group(2).split()
+            for n in names:
+                parts = n.split('.')
+                if parts[0] in ('Slsk', 'SlskGen'):
+                    frm2, parts = parts[0], parts[1:]
+                elif frm:
+                    frm2 = frm
+                else:
+                    continue
+                base = COQ / ('theories' if frm2 == 'Slsk' else 'gen')
+                todo.append(base.joinpath(*parts).with_suffix('.v'))
+    return list(seen)
+
+
+def lint_sources(dirs: Sequence[Path], files: Optional[Sequence[Path]] = None) -> list[str]:
+    """No Admitted/Axiom/... anywhere in the given files or directories (comments are stripped
+    first); Variable/Hypothesis only inside sections."""
     bad = []
+    allfiles = list(files or [])
     for d in dirs:
-        for p in sorted(d.rglob('*.v')):
+        allfiles += sorted(d.rglob('*.v'))
+    for d in [None]:
+        for p in allfiles:
             txt = p.read_text()
             txt = _strip_comments(txt)
             for m in FORBIDDEN.finditer(txt):
@@ -443,7 +473,6 @@ class Run:
     def prove(self, translators: Sequence[str], extra_targets: Sequence[str] = ()) -> bool:
         """Regenerate, build Props.vo of this property, check assumptions. Records broken obligations."""
         targets = [f'theories/{self.prop}/Props.vo'] + list(extra_targets)
-        lint = lint_sources([COQ / 'theories', COQ / 'gen']) if (COQ / 'theories').exists() else []
         try:
             build(translators, targets)
         except BrokenTie as e:
@@ -453,7 +482,7 @@ class Run:
                 pass
             self.add_broken(e.obligation, e.detail)
             return False
-        lint = lint_sources([COQ / 'theories', COQ / 'gen'])
+        lint = lint_sources([COQ / 'theories' / self.prop], dep_closure(self.prop))
         thms = props_theorems(self.prop)
         self.obligations = thms
         if lint:
